@@ -242,6 +242,26 @@ impl Check for C02 {
             return serde_json::json!({ "cluster": sc });
         }
         let enum_total = ENUM_SLOTS * if tier == Tier::Quick { ENUM_HISTORIES_QUICK } else { ENUM_HISTORIES_THOROUGH };
+        // "mass purge": more than a thousand tombstones of one keyspace become purgeable at once
+        if idx >= enum_total && mix(0x9A55, idx) % 97 == 0 {
+            let mut rng = rng_from(case_seed(seed ^ 0x9A55, idx));
+            let base_ms: u64 = 20_000_000_000;
+            let origin: u8 = rng.gen_range(1..=3);
+            let t1 = base_ms - 3 * 3_600_000;
+            let n = rng.gen_range(1_001..1_400u64);
+            let item = |id: u64, t: u64| Item { id, t, c: 0, node: origin };
+            let req = |kind: &str, items: Vec<Item>, source: usize| Req { kind: kind.to_string(), ks: "ks0".to_string(), route: "actor".to_string(), source, items, del_items: vec![], delay_ms: 0 };
+            let events = vec![
+                vec![req("multi_set", (0..5).map(|i| item(i, t1 - 60_000)).collect(), 0)],
+                vec![req("multi_del", (0..n).map(|i| item(i, t1)).collect(), 0)],
+                vec![req("set", vec![item(999_999, t1 + 2 * 3_600_000)], 0)],
+                vec![req("set", vec![item(999_998, t1 + 2 * 3_600_000 + 4)], 1)],
+                vec![req("purge", vec![], 0)],
+                vec![req("set", vec![item(7, base_ms - 1_000)], 0)],
+                vec![req(if rng.gen_bool(0.5) { "purge" } else { "idle_hour" }, vec![], 0)],
+            ];
+            return serde_json::to_value(Scenario { base_ms, store: StoreCfg::default(), events, keyspaces: vec!["ks0".into()], origin: "mass-purge".into() }).unwrap();
+        }
         if idx < enum_total {
             let h = idx / ENUM_SLOTS;
             let slot = idx % ENUM_SLOTS;
